@@ -508,7 +508,7 @@ theorem quoteToksBy_map_upperTok (f : Char → Bool) (ts : List Tok) :
           obtain ⟨b, _, rfl⟩ := hx
           exact upperTok_escOfByte b)).symm
     | esc h1 h2 => rfl
-    | stray => simp [upperTok, quoteTokBy, e2, e5]
+    | stray => cases hp : f '%' <;> simp [upperTok, quoteTokBy, e2, e5, hp]
 
 theorem quoteToks_map_upperTok (ts : List Tok) :
     quoteToks (ts.map upperTok) = (quoteToks ts).map upperTok := by
